@@ -101,6 +101,10 @@ func (t *textScannerLexer) Next() (Token, error) {
 	text := t.scanner.TokenText()
 	pos := Position(t.scanner.Position)
 	pos.Filename = t.filename
+	if pos.Line == 0 {
+		// text/scanner reports an invalid position (line 0) for the EOF of an empty source.
+		pos.Line, pos.Column = 1, 1
+	}
 	if t.err != nil {
 		return Token{}, t.err
 	}
